@@ -136,8 +136,8 @@ theorem grow_save {a : Arena} (h : WF a) {b newBase nc : Nat} (hb : b < a.bufs.l
 
 /-- **Refinement, one operation.** For every client operation `op` (allocate raw / zeroed / a struct with
     relocatable fields, make_ptr_relocatable, store a pointer obtained from ref_to_ptr into a registered slot,
-    write-and-register a pointer, memcpy into allocated bytes, read a slot back through ptr_to_ref, ref_to_ptr
-    followed by ptr_to_ref) that the abstract machine accepts on the abstract content of `a` (`astep (abs a) op`
+    write-and-register a pointer, register-and-fill a slot that held anything, memcpy into allocated bytes, read a
+    slot back through ptr_to_ref, ref_to_ptr followed by ptr_to_ref) that the abstract machine accepts on the abstract content of `a` (`astep (abs a) op`
     is defined: the operation is inside the protocol), for every configuration — always-move hook, initial size
     `a.init`, capacities and base addresses of `a`, allocator answer `nb` admissible *if looked at* — the real
     operation succeeds with exactly the observation `o` the abstract machine prescribes, keeps the protocol `WF`
@@ -203,7 +203,7 @@ theorem create_run_abs (n : Nat) (hn : n ≤ maxBuffers) (ops : List Op) (hok : 
   run_abs ops cfg₁ cfg₂ bases₁ bases₂ (wf_create init₁ hn) (wf_create init₂ hn) hi₁ hi₂
     (by rw [abs_create, abs_create]) (by rw [abs_create]; exact hok) had₁ had₂ hr₁ hr₂
 
-/-- the hypotheses are satisfiable by a non-trivial session (`exOps`, Lemmas/ArenaExample.lean): 14 operations of
+/-- the hypotheses are satisfiable by a non-trivial session (`exOps`, Lemmas/ArenaExample.lean): 17 operations of
     every kind on two buffers; a pointer is stored in a registered slot, then both the buffer it points into and
     the buffer holding the slot are forced to grow before the slot is read back.  Run 1: initial size 1, hook off,
     ascending addresses (buffer 0 is reallocated 3 times, ends with capacity 256); run 2: initial size 64,
